@@ -59,7 +59,7 @@ func init() {
 	for _, a := range strings.Split("io,strconv,unicode,unicode/utf8,unicode/utf16,sort,strings,bytes,math,math/bits,regexp,regexp/syntax,encoding/binary,"+
 		"github.com/getlantern/sqlparser,github.com/getlantern/sqlparser/dependency/sqltypes,github.com/getlantern/goexpr,github.com/getlantern/bytemap,"+
 		"github.com/getlantern/wal,github.com/getlantern/vtime,container/heap,container/list,io/ioutil,hash/crc32,encoding/hex,encoding/base64,"+
-		"google.golang.org/grpc/metadata,google.golang.org/grpc/codes,path,path/filepath,io/fs,internal/oserror,internal/bytealg", ",") {
+		"google.golang.org/grpc/metadata,google.golang.org/grpc/codes,path,path/filepath,io/fs,internal/oserror,internal/bytealg,golang.org/x/net/context,context", ",") {
 		initAllow[a] = true
 	}
 }
@@ -148,7 +148,12 @@ func runJob(ld *loaded, ph *PkgHarness, job Job) (res JobResult) {
 	}()
 	tier := job.Tier
 	zi.ResetAll(h.Mode == "real")
-	zi.InitAllowed = func(p string) bool { return strings.HasPrefix(p, modulePath) || initAllow[p] }
+	zi.InitAllowed = func(p string) bool {
+		if strings.HasPrefix(p, modulePath+"/cmd") {
+			return false // command-line flag definitions (package flag is not initialised)
+		}
+		return strings.HasPrefix(p, modulePath) || initAllow[p]
+	}
 	zi.SkipInit = map[string]bool{modulePath + ".init#1": true}
 	for _, s := range ph.SkipInit {
 		zi.SkipInit[s] = true
